@@ -432,6 +432,16 @@ def dict_part(R, S, rng, quick):
         if got is not None:
             R.check(len(got) == 2 ** d, 'dict-shared-leaves', f'dictionary with shared subtrees: {len(got)} leaves, want {2 ** d}', {'depth': d})
         R.case(mon.fp('dictdag', d))
+    # the same shape measured against the INPUT: 19 cells / 105 bytes unfold to 2^18 entries. The work is proportional to the result, but the result is exponential in
+    # the input, and the property promises a bound in the input - a recorded finding (key unbounded-parse_hashmap-dict-shared-leaves-by-input-size)
+    for d in ([18] if quick else [16, 18, 22, 30]):
+        c = rc.RC('00' + '10101010')
+        for i in range(d):
+            c = rc.RC('00', (c, c))
+        cell = bridge.to_lib(c, 'builder')
+        n, e = dag_size(c)
+        S.run('dict-shared-leaves-by-input-size', 'parse_hashmap', n + e, lambda: parse_hashmap(cell.begin_parse(), d), {'depth': d, 'unfolded_leaves': 2 ** d, 'boc': rc.encode_boc([c])})
+        R.case(mon.fp('dictdag-input', d))
     # ladders that yield no leaf at all: the work must then be bounded by the input (n + e), there is no output to pay for
     for d in ([8, 16, 24, 40] if quick else [4, 8, 12, 16, 20, 24, 32, 40, 64, 128]):
         pruned_leaf = rc.make_pruned(rc.RC('1'), 1)
@@ -458,6 +468,13 @@ def dict_part(R, S, rng, quick):
             # an over-long label must stop it at once
             S.run(fam, 'parse_hashmap_aug', (n + e) if top_bits else 2 ** (min(d, 40) + 1), lambda: parse_hashmap_aug(cell.begin_parse(), w, lambda s: s, lambda s: 0), W) \
                 if (top_bits or d <= 12) else None
+            # ... and measured against the INPUT (n + e) as the property words it ("a few-hundred-byte input cannot make the library run for more than a fraction of
+            # a second"): the augmented parser has no memo for shared subtrees that yield no leaf, it walks them once per path and returns one augmentation value per
+            # fork visit - a recorded finding (known_findings.txt, key unbounded-parse_hashmap_aug-dict-leafless-ladder-by-input-size); also through the typed entry point
+            if not top_bits and d >= 16:
+                S.run('dict-leafless-ladder-by-input-size', 'parse_hashmap_aug', n + e, lambda: parse_hashmap_aug(cell.begin_parse(), w, lambda s: s, lambda s: 0), dict(W, leaf=fam))
+                S.run('dict-leafless-ladder-by-input-size', 'load_hashmap_aug_e', n + e,
+                      lambda: bridge.lib().Builder().store_dict(cell).end_cell().begin_parse().load_hashmap_aug_e(w, lambda s: s, lambda s: 0), dict(W, leaf=fam))
             R.case(mon.fp('dictladder', fam, d))
     # a shared leafless ladder next to real entries: before it (smaller keys), after it, on both sides - the leaves found must not change what is remembered as leafless
     for d in ([8, 16, 30] if quick else [4, 8, 16, 24, 40, 64, 128]):
